@@ -160,6 +160,12 @@ Theorem C09_objects_stringify_inverts_elements_partial :
     option_map stringify_els (elements (Obj.ObjText.orender p)) = Some (Obj.ObjText.orender p).
 Proof. exact Obj.ObjPathText.ostringify_inverts_elements. Qed.
 
+(* distinct locations get distinct path texts (elements and actions; the int key i and the index i are one element) *)
+Theorem C09_objects_render_inj_partial :
+  forall p1 p2 : Obj.ObjValue.opath, Obj.ObjPathText.opath_ok p1 = true -> Obj.ObjPathText.opath_ok p2 = true ->
+    Obj.ObjText.orender p1 = Obj.ObjText.orender p2 -> map Obj.ObjText.oelement p1 = map Obj.ObjText.oelement p2.
+Proof. exact Obj.ObjPathText.orender_inj. Qed.
+
 (* outside the guard: an attribute whose name starts with two underscores (reported under
    ignore_private_variables=False) is dropped by the parser, and extract returns the PARENT object
    (observation OBJ3); an attribute whose name is a Python literal (possible through setattr /
@@ -184,5 +190,6 @@ Proof. split; reflexivity. Qed.
 Print Assumptions C09_objects_elements_partial.
 Print Assumptions C09_objects_extract_partial.
 Print Assumptions C09_objects_stringify_inverts_elements_partial.
+Print Assumptions C09_objects_render_inj_partial.
 Print Assumptions C09_objects_extract_refuted_private_attribute.
 Print Assumptions C09_objects_extract_refuted_literal_attribute.
